@@ -35,6 +35,9 @@ def make_args(desc):
 def build(desc):
     """Return a fresh, un-finalized VForm for the description."""
     from pyiga import vform
+    if desc['kind'] == 'gen':
+        from . import vf_gen
+        return vf_gen.build(desc['tokens'], desc['dim'])
     if desc['kind'] == 'predef':
         f = getattr(vform, desc['expr'])
         return f(desc['dim'], **(desc.get('kwargs') or {}))
